@@ -16,6 +16,7 @@ INVARIANT CompositionHolds
 INVARIANT LineIsPristine
 INVARIANT ReverseOnOwnRoute
 INVARIANT DirectionAsRequested
+INVARIANT ThresholdOfDefaultSI
 INVARIANT RuleWellDefined
 INVARIANT SelectionUniqueUpToTies
 INVARIANT BlockedIffNoFeasible
